@@ -316,8 +316,9 @@ def run_check(pid, tier, seed, replay=None):
             'wall_s': round(wall, 2),
             'violations': len(unknown),
         }
-        os.makedirs(os.path.join(VERIF, 'evidence'), exist_ok=True)
-        with open(os.path.join(VERIF, 'evidence', '%s.json' % pid), 'w') as f:
+        evdir = os.environ.get('VERIF_EVIDENCE_DIR') or os.path.join(VERIF, 'evidence')
+        os.makedirs(evdir, exist_ok=True)
+        with open(os.path.join(evdir, '%s.json' % pid), 'w') as f:
             json.dump(evidence, f, indent=1, default=_default)
 
     print('%s tier=%s seed=%d shards=%d evaluations=%d distinct_nontrivial=%d wall=%.1fs' % (
@@ -329,7 +330,7 @@ def run_check(pid, tier, seed, replay=None):
             pid, k.get('what', ''), m, sum(1 + v.get('more', 0) for v in vs)))
     rc = 0
     if unknown:
-        rdir = os.path.join(VERIF, 'replays')
+        rdir = os.environ.get('VERIF_REPLAY_DIR') or os.path.join(VERIF, 'replays')
         os.makedirs(rdir, exist_ok=True)
         if replay is None:
             for fn in os.listdir(rdir):
